@@ -96,6 +96,11 @@ def probe_source(repo=None):
     names = re.findall(r'^\s*([A-Za-z_][A-Za-z_0-9]*)\s*,', cats, re.M)
     classes = [n for n in names if re.search(r'\bstruct\s+' + n + r'\s*:', iface)]
     lines = ['#include <ipr/impl>', '#include <ipr/io>', '#include <ipr/traversal>', 'namespace ipr {']
+    # the setters of the declaration classes are member functions of a class template that the library itself never calls
+    lines.append('   namespace impl {')
+    lines.append('      inline void probe_decl_setters(impl::Var& v, impl::Field& f, impl::Fundecl& g, ipr::Specifiers s)')
+    lines.append('      { v.specifiers(s); f.specifiers(s); g.specifiers(s); }')
+    lines.append('   }')
     # (instantiated by use, on named objects, not by explicit instantiation: whatever parameter passing the operators declare, a
     #  call on two variables selects them, and the rule sees the signature as it is)
     for T in ('Specifiers', 'Qualifiers'):
